@@ -65,7 +65,7 @@ Proof. vm_compute. repeat split; reflexivity. Qed.
    the session that is returned does not have the Ready bit *)
 Example ex_error_not_ready :
   let r := run (mkCfg [fv1; fv2] false false true (str "example.net") None false) st_Received
-               [hdr; sel fv1] [] [mkO st_Ready false false] [] in
+               [hdr; sel fv1] [] [mkO st_Ready false false RWWrap] [] in
   r_class r = RErr EOther /\ r_bits r = st_Received /\ self_ready (trace r) = true.
 Proof. vm_compute. repeat split; reflexivity. Qed.
 
@@ -79,9 +79,9 @@ Proof. vm_compute. split; reflexivity. Qed.
    (c_teefirst = false); with C02's repair it is made *)
 Definition cfg_tee (teefirst : bool) : config := mkCfg [f_tls; f_sasl; f_bind] true false true (str "example.net") None teefirst.
 Example ex_tee_first :
-  negs (trace (run (cfg_tee false) 0 [hdr; mkItem false (PFeatures [])] [] [mkO st_Secure true false] [ft_starttls_space])) = [] /\
+  negs (trace (run (cfg_tee false) 0 [hdr; mkItem false (PFeatures [])] [] [mkO st_Secure true false RWWrap] [ft_starttls_space])) = [] /\
   length (negs (trace (run (cfg_tee true) 0 [hdr; mkItem false (PFeatures []); hdr; mkItem false (PFeatures [])] []
-                           [mkO st_Secure true false] [ft_starttls_space]))) = 1.
+                           [mkO st_Secure true false RWWrap] [ft_starttls_space]))) = 1.
 Proof. vm_compute. split; reflexivity. Qed.
 
 (* XEP-0288 bidi as shipped in s2s/bidi.go: advertised under one name space,
@@ -114,3 +114,15 @@ Proof. vm_compute. repeat split; reflexivity. Qed.
 (* the witness of C01_voluntary_first_literal_refuted *)
 Example ex_w6 : negs (trace w6_run) = [((xc, str "c"), 0%N)].
 Proof. vm_compute. reflexivity. Qed.
+
+(* a caller-asserted Secure initial state over a plain connection, two restarts
+   (the second feature returns the session's own connection, like sasl.go), then
+   a feature that needs Secure|Authn: Secure is still there *)
+Definition f_auth : feature := mkF xa (str "a") st_Secure st_Authn true KAbstract true false.
+Definition f_need : feature := mkF xb (str "b") (N.lor st_Secure st_Authn) st_Ready true KAbstract true false.
+Example ex_secure_survives_restart :
+  let r := run (mkCfg [f_auth; f_need] false false true (str "example.net") None true) st_Secure
+               [hdr; mkItem false (PFeatures [adv f_auth true]); hdr; mkItem false (PFeatures [adv f_need true])] []
+               [mkO st_Authn true false RWSame; mkO st_Ready false false RWWrap] [xa; xb] in
+  r_class r = ROk /\ r_bits r = 7%N /\ negs (trace r) = [(fname f_auth, 1%N); (fname f_need, 3%N)].
+Proof. vm_compute. repeat split; reflexivity. Qed.
